@@ -122,6 +122,8 @@ pub enum Op {
     TIns { t: Tgt, i: usize, s: String },
     TInsA { t: Tgt, i: usize, s: String, attrs: AttrsV },
     TEmbed { t: Tgt, i: usize, v: AnyV, attrs: Option<AttrsV> },
+    /// embed a nested shared type (array / map / text prelim) as one unit of a text
+    TEmbedT { t: Tgt, i: usize, v: Val },
     TFmt { t: Tgt, i: usize, n: usize, attrs: AttrsV },
     TDel { t: Tgt, i: usize, n: usize },
     TPush { t: Tgt, s: String },
@@ -155,6 +157,7 @@ impl Op {
             Op::TIns { t, .. }
             | Op::TInsA { t, .. }
             | Op::TEmbed { t, .. }
+            | Op::TEmbedT { t, .. }
             | Op::TFmt { t, .. }
             | Op::TDel { t, .. }
             | Op::TPush { t, .. }
@@ -311,6 +314,25 @@ pub fn apply_real(
                     Some(a) => {
                         t.insert_embed_with_attributes(txn, off, v.to_any(), to_attrs(a));
                     }
+                }
+            });
+        }
+        Op::TEmbedT { i, v, .. } => {
+            let tl = as_text(&tgt).ok_or("not text")?;
+            with_text!(tl, t, {
+                let units = dump_units(txn, &t);
+                let off = unit_offset(&units, *i, kind);
+                match v {
+                    Val::Array(xs) => {
+                        t.insert_embed(txn, off, ArrayPrelim::from_iter(xs.iter().map(|a| In::Any(a.to_any()))));
+                    }
+                    Val::Map(kv) => {
+                        t.insert_embed(txn, off, MapPrelim::from_iter(kv.iter().map(|(k, v)| (k.as_str(), In::Any(v.to_any())))));
+                    }
+                    Val::Text(s) => {
+                        t.insert_embed(txn, off, TextPrelim::new(s.as_str()));
+                    }
+                    _ => return Err("unsupported embedded type".into()),
                 }
             });
         }
@@ -635,6 +657,11 @@ pub fn apply_model(m: &mut Model, op: &Op) -> Result<(), String> {
                 },
             );
         }
+        Op::TEmbedT { i, v, .. } => {
+            let u = units_of(n).ok_or("not text")?;
+            let a = if *i > 0 { u[*i - 1].attrs.clone() } else { AttrsV::new() };
+            u.insert(*i, Unit { c: UnitC::Node(Box::new(v.to_node())), attrs: a });
+        }
         Op::TFmt { i, n: len, attrs, .. } => {
             let u = units_of(n).ok_or("not text")?;
             apply_fmt(&mut u[*i..*i + *len], attrs);
@@ -866,6 +893,37 @@ fn text_ops(out: &mut Vec<Op>, t: &Tgt, units: &[Unit], k: usize, fam: Fam, leve
         }
         out.push(Op::TIns { t: t.clone(), i: n, s: c1.clone() });
         out.push(Op::TDel { t: t.clone(), i: n / 2, n: 1 });
+        return;
+    }
+    if fam == Fam::Rtx && level == 4 {
+        // embed-focused alphabet: nested shared types (array / map / text) embedded as units of a text, JSON embeds,
+        // characters, then EVERY deletion range up to three units (ranges that start at, end at, cover or only touch
+        // an embedded type), one delta with a deletion, and formatting over the whole text
+        if n == 0 {
+            out.push(Op::TIns { t: t.clone(), i: 0, s: "wx".into() });
+            return;
+        }
+        let kinds = [
+            Val::Array(vec![AnyV::num(1.0)]),
+            Val::Map(vec![("k".to_string(), AnyV::num(1.0))]),
+            Val::Text("q".to_string()),
+        ];
+        for p in 0..=n {
+            out.push(Op::TEmbedT { t: t.clone(), i: p, v: kinds[(k + p) % 3].clone() });
+        }
+        for p in ins_positions(n) {
+            out.push(Op::TIns { t: t.clone(), i: p, s: c1.clone() });
+        }
+        out.push(Op::TEmbed { t: t.clone(), i: n / 2, v: AnyV::num(1000.0 + k as f64), attrs: None });
+        for i in 0..n {
+            for len in 1..=(n - i).min(3) {
+                out.push(Op::TDel { t: t.clone(), i, n: len });
+            }
+        }
+        if n >= 2 {
+            out.push(Op::TDelta { t: t.clone(), d: vec![DOp::Retain(1, None), DOp::Del(n - 1)] });
+        }
+        out.push(Op::TFmt { t: t.clone(), i: 0, n, attrs: bold() });
         return;
     }
     match fam {
